@@ -515,13 +515,15 @@ paf24_read (SF_PRIVATE *psf, PAF24_PRIVATE *ppaf24, int *ptr, int len)
 {	int	count, total = 0 ;
 
 	while (total < len)
-	{	if (ppaf24->read_block * PAF24_SAMPLES_PER_BLOCK >= ppaf24->sample_count)
-		{	memset (&(ptr [total]), 0, (len - total) * sizeof (int)) ;
-			return total ;
-			} ;
+	{	if (ppaf24->read_count >= PAF24_SAMPLES_PER_BLOCK)
+		{	/* Only at the end once the samples of the last block have been delivered. */
+			if (ppaf24->read_block * PAF24_SAMPLES_PER_BLOCK >= ppaf24->sample_count)
+			{	memset (&(ptr [total]), 0, (len - total) * sizeof (int)) ;
+				return total ;
+				} ;
 
-		if (ppaf24->read_count >= PAF24_SAMPLES_PER_BLOCK)
 			paf24_read_block (psf, ppaf24) ;
+			} ;
 
 		count = (PAF24_SAMPLES_PER_BLOCK - ppaf24->read_count) * ppaf24->channels ;
 		count = (len - total > count) ? count : len - total ;
